@@ -175,6 +175,30 @@ UpdateAllPartial(ms, k, fl, par, news) ==
     /\ err' = IF Dispatch(cfg[ms[k]], cfg[ms[k]].regime, par) = "absent" THEN "RuntimeError" ELSE "ValueError"
     /\ UNCHANGED <<cfg, disk>>
 
+\* ---------------------------------------------------------------- argument validation (C07)
+\* a non-callable velocity gradient or position is refused before anything is integrated
+UpdateBadArgs(m, which) ==
+    /\ Tick /\ Log([a |-> "UpdateBadArgs", m |-> m, which |-> which]) /\ cfg[m] # NULL
+    /\ err' = "ValueError" /\ UNCHANGED <<cfg, hist, nUpd, Fm, disk>>
+
+\* ---------------------------------------------------------------- post-processing in the workflow (C10)
+\* voigt_averages over a sequence of minerals: accepted iff all have the same grain count, the same
+\* number of stored snapshots, and every mineral's phase is listed in the assemblage.  In particular a
+\* bulk update that was refused part-way (UpdateAllPartial) leaves minerals with unequal snapshot
+\* counts, and the average over them must be refused.
+AllLive(ms) == \A k \in 1..Len(ms) : cfg[ms[k]] # NULL
+VoigtAccepts(ms, par) ==
+    /\ \A j, k \in 1..Len(ms) : cfg[ms[j]].n = cfg[ms[k]].n /\ Len(hist[ms[j]]) = Len(hist[ms[k]])
+    /\ \A k \in 1..Len(ms) : InAsm(cfg[ms[k]].phase, par.asm) /\ cfg[ms[k]].phase \in {0, 1}
+VoigtOk(ms, par) ==
+    /\ Tick /\ Log([a |-> "VoigtOk", ms |-> ms, par |-> par, steps |-> Len(hist[ms[1]])])
+    /\ Len(ms) >= 1 /\ AllLive(ms) /\ VoigtAccepts(ms, par)
+    /\ err' = "None" /\ UNCHANGED <<cfg, hist, nUpd, Fm, disk>>
+VoigtRejected(ms, par) ==
+    /\ Tick /\ Log([a |-> "VoigtRejected", ms |-> ms, par |-> par])
+    /\ Len(ms) >= 1 /\ AllLive(ms) /\ ~VoigtAccepts(ms, par)
+    /\ err' = "ValueError" /\ UNCHANGED <<cfg, hist, nUpd, Fm, disk>>
+
 \* ---------------------------------------------------------------- persistence (C17)
 Rec(m) == [meta |-> <<cfg[m].phase, cfg[m].fabric, cfg[m].regime>>, n |-> cfg[m].n, hist |-> hist[m]]
 Extend(d, k, v) == [x \in (DOMAIN d) \cup {k} |-> IF x = k THEN v ELSE d[x]]
